@@ -188,7 +188,7 @@ func init() {
 		},
 		Run:           c06Run,
 		MinNontrivial: 300,
-		Rule: "case k: a command tree of depth <=3 with required options (45%) at every level and in nested groups, positional structs with required:\"yes\" on the struct, required / N / N-M on fields; a valid intent vector that never mentions required options by itself, into which the subset number (k/7 mod 2^n) of the n<=6 required options of the active chain is inserted in random spelling (also inside clusters); every 7th case supplies all so that positional constraints are reached. " +
+		Rule: "1 case in 16: a parser built through the API only (AddGroup, AddCommand with SubcommandsOptional, 1-3 options registered with AddOption, Required on some): ErrRequired names exactly the missing ones whose command is selected. case k: a command tree of depth <=3 with required options (45%) at every level and in nested groups, positional structs with required:\"yes\" on the struct, required / N / N-M on fields; a valid intent vector that never mentions required options by itself, into which the subset number (k/7 mod 2^n) of the n<=6 required options of the active chain is inserted in random spelling (also inside clusters); every 7th case supplies all so that positional constraints are reached. " +
 			"Oracle: success iff nothing is unmet; otherwise ErrRequired whose back-quoted names equal exactly the missing options (or, when none is missing, the unmet positionals), nothing executed. Non-trivial = every case judged; distinct = (kind, #names, depth, #required, subset).",
 		Assumptions: []string{"message wording is not asserted, only the set of back-quoted names and the error type", "a required option with default tags counts as supplied"},
 		Technique:   "runtime reference-model monitor: set of unmet items computed from the intent vs. names extracted from ErrRequired; exhaustive subsets of the chain's required options; metamorphic history monitor ([use, change of the public model, use] on one parser vs. a fresh parser of the changed declaration)",
